@@ -87,6 +87,7 @@ package vers
 //@   ensures union: result1 == nil ==> result0 == (!(exists i int :: 0 <= i && i < len(parseConstraints(normalizeConstraints(e, constraints).0).0) && parseConstraints(normalizeConstraints(e, constraints).0).0[i].operator == "!=" && e.NewVersion(version).0.Compare(e.NewVersion(parseConstraints(normalizeConstraints(e, constraints).0).0[i].version).0) == 0) && (len(toRanges(e, normalizeConstraints(e, constraints).0).0) == 0 || (exists k int :: 0 <= k && k < len(toRanges(e, normalizeConstraints(e, constraints).0).0) && toRanges(e, normalizeConstraints(e, constraints).0).0[k].Contains(e.NewVersion(version).0))))   [C04]
 //@   ensures member: result1 == nil && result0 && len(toRanges(e, normalizeConstraints(e, constraints).0).0) > 0 ==> (exists k int :: 0 <= k && k < len(toRanges(e, normalizeConstraints(e, constraints).0).0) && toRanges(e, normalizeConstraints(e, constraints).0).0[k].Contains(e.NewVersion(version).0))   [C04]
 //@   ensures invalid-probe: e.NewVersion(version).1 != nil ==> result1 != nil && !result0                  [C17]
+//@   ensures rejected-constraints: normalizeConstraints(e, constraints).1 != nil ==> result1 != nil && !result0   [C17]
 //@   ensures error-is-false: result1 != nil ==> !result0                                                    [C17]
 
 //@ func pypiContains
@@ -199,12 +200,14 @@ package vers
 //@   loop 1 invariant dist: forall m1 int :: forall m2 int :: 0 <= m1 && m1 < m2 && m2 < len(vcs) ==> vcs[m1].constraint != vcs[m2].constraint using seen
 //@   loop 2 invariant (rangeindex#2 >= 0 ==> !strings.HasPrefix(c#2, ">=")) && (rangeindex#2 >= 1 ==> !strings.HasPrefix(c#2, "<=")) && (rangeindex#2 >= 2 ==> !strings.HasPrefix(c#2, "!=")) && (rangeindex#2 >= 3 ==> !strings.HasPrefix(c#2, ">")) && (rangeindex#2 >= 4 ==> !strings.HasPrefix(c#2, "<")) && (rangeindex#2 >= 5 ==> !strings.HasPrefix(c#2, "="))
 //@   loop 1 invariant ver: forall m int :: 0 <= m && m < len(vcs) && vcs[m].constraint != "*" ==> e.NewVersion(verOf(vcs[m].constraint)).1 == nil && vcs[m].version == e.NewVersion(verOf(vcs[m].constraint)).0
+//@   loop 1 invariant okv: forall i int :: 0 <= i && i <= rangeindex#1 && strings.Map(anon(1), constraints[i]) != "" && strings.Map(anon(1), constraints[i]) != "*" && opOf(strings.Map(anon(1), constraints[i])) != "" && verOf(strings.Map(anon(1), constraints[i])) != "" ==> e.NewVersion(verOf(strings.Map(anon(1), constraints[i]))).1 == nil using ver,seen
 //@   loop 3 invariant len(sorted) == rangeindex + 1
 //@   loop 3 invariant forall n int :: 0 <= n && n <= rangeindex ==> sorted[n] == vcs[n].constraint
 //@   ensures no-more: result1 == nil ==> len(result0) <= len(constraints)   [C16]
 //@   ensures origin: result1 == nil ==> (forall n int :: 0 <= n && n < len(result0) ==> (exists i int :: 0 <= i && i < len(constraints) && result0[n] == strings.Map(anon(1), constraints[i]) && result0[n] != ""))   [C16] using org
 //@   ensures distinct: result1 == nil ==> (forall n1 int :: forall n2 int :: 0 <= n1 && n1 < n2 && n2 < len(result0) ==> result0[n1] != result0[n2])   [C16] using dist,seen
 //@   ensures sorted: result1 == nil ==> (forall n1 int :: forall n2 int :: 0 <= n1 && n1 < n2 && n2 < len(result0) ==> (result0[n2] == "*" ==> result0[n1] == "*") && (result0[n1] != "*" && result0[n2] != "*" ==> e.NewVersion(verOf(result0[n1])).0.Compare(e.NewVersion(verOf(result0[n2])).0) <= 0))   [C16] using ver
+//@   ensures rejects-bad-version: (exists i int :: 0 <= i && i < len(constraints) && strings.Map(anon(1), constraints[i]) != "" && strings.Map(anon(1), constraints[i]) != "*" && opOf(strings.Map(anon(1), constraints[i])) != "" && verOf(strings.Map(anon(1), constraints[i])) != "" && e.NewVersion(verOf(strings.Map(anon(1), constraints[i]))).1 != nil) ==> result1 != nil   [C16 C17] using okv
 //@   ensures complete: result1 == nil ==> (forall i int :: 0 <= i && i < len(constraints) && strings.Map(anon(1), constraints[i]) != "" ==> (exists n int :: 0 <= n && n < len(result0) && result0[n] == strings.Map(anon(1), constraints[i])))   [C16] using cmpl,seen
 //@   ensures nothing-in-nothing-out: len(constraints) == 0 ==> result1 == nil && len(result0) == 0   [C16]
 
